@@ -53,11 +53,14 @@ class Disk:
 def make_fake_qemu_img(disk_ref):
     class FakeQemuImg:
         def __init__(self, params, root_dir, tag):
+            # like the real class, the image file follows from the parameters (image_name), not from the tag
+            from virttest import storage
             self.tag = tag
-            self.image_filename = os.path.join(root_dir, tag)
+            self.image_filename = storage.get_image_filename(params, root_dir)
+            self.image = os.path.basename(self.image_filename).split(".")[0][len("img-"):]
 
         def snapshot_list(self, force_share=False):
-            return disk_ref["disk"].listing(self.tag)
+            return disk_ref["disk"].listing(self.image)
     return FakeQemuImg
 
 
@@ -76,7 +79,9 @@ def run_plan(plan_data, root):
         "vms": "vm1", "images": " ".join(images), "object_id": vm_id, "swarm_pool": os.path.join(root, "swarm"),
         "images_base_dir": os.path.join(root, "images"), "vms_base_dir": os.path.join(root, "images"),
         "pool_scope": "own", "object_type": "nets/vms", "nets_gateway": "", "nets_host": "",
-        "shared_pool": os.path.join(root, "shared"),
+        "shared_pool": os.path.join(root, "shared"), "image_format": "qcow2",
+        # the first image is named by the generic key, further ones by their own (as multi-image configurations do)
+        "image_name": "img-" + images[0], **{f"image_name_{image}": "img-" + image for image in images[1:]},
     })
     violations = []
     events = []
